@@ -37,7 +37,9 @@ Strip(e) == <<e[2], e[4], e[5], e[6], e[7], e[8]>>          \* tick, kind, chann
 MaxDelta == 268435455
 WithinLimitT(T, d) == LET RECURSIVE F(_, _)
                           F(i, acc) == IF i > Len(d) THEN TRUE
-                                       ELSE LET t == Lo(T, d[i]) + 1 IN t <= MaxDelta - acc /\ F(i + 1, acc + t)
+                                       ELSE LET s == ValSum(d[i].vals) IN
+                                            IF s[1] \div s[2] > MaxDelta \div T THEN FALSE    \* (whole beats alone are beyond it: T * beats is not even computed, it would not fit TLC's integers)
+                                            ELSE LET t == Lo(T, d[i]) + 1 IN t <= MaxDelta - acc /\ F(i + 1, acc + t)
                       IN F(1, 0)
 \* T: the ticks per quarter note this binary declares (read off a small reference file by the driver; a refused run has no
 \* header of its own)
